@@ -164,6 +164,11 @@ def length_form(v, res, lay):
         kinds = [length_form(a, res, lay) for a in v.args]
         bad = [k for k in kinds if k[0] is None]
         return bad[0] if bad else ('phi', [k[0] for k in kinds])
+    if isinstance(v, Sym) and v.op == 'attr' and v.args[1] == 'parsed_length' and isinstance(v.args[0], Sym) and \
+            v.args[0].op == 'phi' and all(isinstance(a, ParserV) for a in v.args[0].args):
+        kinds = [length_form(Sym('plen', a, None), res, lay) for a in v.args[0].args]
+        bad = [k for k in kinds if k[0] is None]
+        return bad[0] if bad else ('phi', [k[0] for k in kinds])
     if isinstance(v, Sym) and v.op == 'plen':
         p, n = v.args
         if p in lay.chain and getattr(p, 'rel', ('?',))[0] in ('root', 'prefix'):
@@ -197,7 +202,7 @@ def length_form(v, res, lay):
     if isinstance(v, Sym) and v.op == 'len' and isinstance(v.args[0], InputV):
         return ('whole', 'len(parsable)')
     if isinstance(v, Sym) and v.op == 'len' and isinstance(v.args[0], Sym) and v.args[0].op == 'call':
-        return ('library', 'length of a re-encoded library object: %s' % show(v)[:60])
+        return library_length(v.args[0], v)
     if isinstance(v, Sym) and v.op == 'parsedlen':
         return ('nested', 'length reported by the nested parse')
     if isinstance(v, Sym) and v.op == 'index' and isinstance(v.args[0], Sym) and v.args[0].op in ('call', 'phi'):
@@ -205,6 +210,25 @@ def length_form(v, res, lay):
     if isinstance(v, int) and not isinstance(v, bool):
         return ('const', v)
     return (None, 'unrecognised length expression %s' % show(v)[:80])
+
+
+def library_length(call, v):
+    """len(X.load(bytes(parsable)).dump()): asn1crypto keeps the bytes an object was loaded from and dump() without
+    arguments returns exactly those bytes, so their length is the number of bytes consumed; dump(force=True) re-encodes in
+    canonical DER (a BER long-form length or an indefinite length changes the size), and any other callee is unknown"""
+    kw = getattr(call, 'kwargs', None)
+    f = call.args[0]
+    rest = call.args[1:]
+    if not (isinstance(f, Sym) and f.op == 'attr' and f.args[1] == 'dump'):
+        return (None, 'length of the result of a call that is not the library object\'s dump(): %s' % show(v)[:80])
+    if rest or kw:
+        return (None, 'dump() is called with arguments (%s): a forced re-encoding need not have the length of the bytes consumed' % show(v)[:80])
+    obj = f.args[0]
+    loaded = isinstance(obj, Sym) and obj.op == 'call' and 'load' in show(obj.args[0]) and len(obj.args) == 2 and \
+        isinstance(obj.args[1], Sym) and obj.args[1].op == 'bytes' and isinstance(obj.args[1].args[0], InputV)
+    if not loaded:
+        return (None, 'dump() of an object that was not loaded from the whole input: %s' % show(v)[:80])
+    return ('library', 'length of the bytes the library object was loaded from: %s' % show(v)[:60])
 
 
 def same_value(a, b):
@@ -231,9 +255,6 @@ def return_lengths(ctx, report):
         nondsl = json.load(fh)
     for c in representatives(ctx, '_parse'):
         f = c.resolve('_parse')
-        if c.name in nondsl:
-            report.undecided.append('%s._parse: %s' % (c.name, nondsl[c.name]))
-            continue
         lay = ctx.canon.layout(c, 'parse')
         res = lay.result
         report.count('C03.R3')
@@ -242,7 +263,8 @@ def return_lengths(ctx, report):
             if isinstance(val, Sym) and val.op == 'phi' and all(isinstance(a, tuple) and len(a) == 2 for a in val.args):
                 lens = [a[1] for a in val.args]
             else:
-                report.undecided.append('%s._parse: return value is not a statically visible (object, length) pair: %s' % (c.name, show(val)[:60]))
+                report.undecided.append('%s._parse: return value is not a statically visible (object, length) pair: %s%s' % (
+                    c.name, show(val)[:60], ' [%s]' % nondsl[c.name] if c.name in nondsl else ''))
                 continue
         else:
             lens = [val[1]]
